@@ -121,9 +121,10 @@ PROPS['C16'] = {
 }
 PROPS['C20'] = {
     'level': 'exploration', 'budget': {'quick': 60, 'thorough': 900},
-    'parts': [{'sim': 'congestion', 'share': 3}, {'sim': 'sph', 'share': 1}],
+    'parts': [{'sim': 'congestion', 'share': 3}, {'sim': 'sph', 'share': 1}, {'sim': 'transfer', 'share': 1.5, 'env': {'VERIF_ORACLES': 'C20'}}],
     'rule': 'K:congestion: seeded histories of the real cubic sender (Reno and Cubic) + pacer + RTT stats over a simulated bottleneck (rate, queue, delay, random and burst loss, delayed and lost ACKs, app-limited and idle periods, MTU raises) '
             'and over adversarial event sequences (arbitrary sizes and times); K:sph contributes the clause that new ack-eliciting data is only allowed while bytes in flight are below the window; '
+            'W:transfer judges the same clause and the window bounds on whole connections from the endpoints\' own qlog (bytes in flight pass the window by at most one packet unless a probe timeout fired or a loss shrank the window); '
             'non-trivial = a loss/fault fired; distinct = distinct abstract histories',
     'real_vs_stub': 'real: cubicSender, cubic, pacer, hybrid slow start, RTT stats, sentPacketHandler; stub: path, peer',
     'assumptions': ['TimeUntilSend timing is only noted: the property bounds what the pacer authorises'],
